@@ -17,7 +17,7 @@ LEAN_TARGETS = ['Nitime.Props.C11']
 RULE = ('cases from one PRNG state: covariance sequences estimated from coloured multichannel data (N 64..512, thorough ..4096) '
         'or exact covariances of drawn stable VAR processes; nc 1..6, P 1..8; channel permutations; fit_model with fixed order 0..5 '
         'and BIC/AIC-selected order (max_order 10); generate_mar with a fixed numpy seed; distinct = distinct protocol line; '
-        'block-Toeplitz systems with cond > 1e7 are skipped and counted')
+        'block-Toeplitz systems with cond > 1e6 are skipped and counted')
 ASSUMPTIONS = ['real-valued data (lwr_recursion allocates real coefficient arrays)',
                'the two error covariances met along the recursion are invertible (hypothesis of lwr_solves); ill-conditioned cases skipped and counted',
                'R(0) symmetric',
@@ -30,7 +30,7 @@ TRUSTED_EXTRA = [
     'scipy.linalg.det in the information criteria modelled by elimination on the 2x2 error covariance',
 ]
 STATS = {'skipped_ill_conditioned': 0, 'pd_certified': 0, 'pd_not_applicable': 0}
-COND_MAX = 1e7
+COND_MAX = 1e6
 
 
 def mods():
@@ -372,7 +372,7 @@ def cases(rng, tier, seed):
     for k in STATS:
         STATS[k] = 0
     # --- lwr_recursion
-    n_lwr = 60 if not big else 800
+    n_lwr = 160 if not big else 1500
     for i in range(n_lwr):
         nc = int(nrng.randint(1, 7))
         P = int(nrng.randint(1, 9))
@@ -396,7 +396,7 @@ def cases(rng, tier, seed):
         m['r'] = flist(r.reshape(-1))
         out.append(mk_case(m, 'lwr/%s/%s' % (tag, 'scalar' if nc == 1 else 'multi'), cmp_groups()))
     # --- autocov_vector, MAR_est_LWR
-    n_cov = 16 if not big else 200
+    n_cov = 40 if not big else 300
     for i in range(n_cov):
         nc = int(nrng.randint(1, 5))
         N = int(nrng.choice([64, 100, 256] + ([1024] if big else [])))
@@ -408,7 +408,7 @@ def cases(rng, tier, seed):
             m = {'op': 'mar', 'nc': nc, 'order': order, 'x': flist(x.reshape(-1))}
             out.append(mk_case(m, 'mar', cmp_groups()))
     # --- fit_model
-    n_fit = 16 if not big else 200
+    n_fit = 40 if not big else 300
     for i in range(n_fit):
         N = int(nrng.choice([128, 256, 400]))
         x = coloured(nrng, 2, N) if i % 4 != 3 else nrng.randn(2, N)     # white data: order 0 is the answer
@@ -436,7 +436,7 @@ def cases(rng, tier, seed):
         m = {'op': 'fitc', 'nc': 2, 'table': tbl, 'maxo': mo, 'x': flist(xw.reshape(-1))}
         out.append(mk_case(m, 'fit/selected/table', cmp_groups(n_exact=1)))
     # --- generate_mar
-    n_g = 10 if not big else 100
+    n_g = 30 if not big else 200
     for i in range(n_g):
         nc = int(nrng.randint(1, 5))
         P = int(nrng.randint(1, 5))
